@@ -379,3 +379,102 @@ def tbl20_registry_forwards_null(ctx):
                                         'no row for %s: the expression is a TypeError for the whole query when one '
                                         'partition lacks the column' % ', '.join('(%s, %s)' % m for m in missing)),
                   'src/engine/planning/query_plan.rs:%s' % (node.get('l') if isinstance(node, dict) else '?'))
+
+
+# ------------------------------------------------------------------------------------ PAN-8
+def pan8_range_arithmetic(ctx):
+    """The planner derives the value range of a grouping expression from column ranges and constants
+    of the query (`encoding_range`) and sizes the grouping key from it.  All of that is i64 arithmetic
+    on values the user controls (`x / 0`, `p * r`, a column spanning all of i64, three wide columns);
+    an overflow or a zero divisor there is a panic on the worker thread."""
+    from mirlib.cfg import CFG
+    from mirlib.dataflow import DefUse, base_local
+    ctx.rule('PAN-8', 'value-range arithmetic of the grouping planner: encoding_range computes with checked '
+                      'operations only, its callers take the range through a filter that rejects ranges the '
+                      'key arithmetic cannot handle, and bit packing tests the combined width against 63 '
+                      'before it shifts', floor=4)
+    P = ctx.P
+    ER = [b for b in P.find('query_plan::encoding_range') if b.kind == 'fn' and '{closure' not in b.name]
+    ctx.require(len(ER) == 1, 'PAN-8: query_plan::encoding_range not found')
+    bodies = [ER[0]] + list(P.closures_of(ER[0]))
+    raw = []
+    for b in bodies:
+        b.parse()
+        for bid, blk in b.blocks.items():
+            t = blk.term
+            if blk.cleanup or t is None or t.kind != 'assert':
+                continue
+            msg = getattr(t, 'msg', '') or t.code
+            if re.search(r'attempt to (add|subtract|multiply|divide|negate|shift|calculate the remainder)', msg):
+                raw.append((b, t))
+    ctx.check('PAN-8', 'encoding_range|checked-arithmetic-only', not raw,
+              'encoding_range and its closures contain %d plain arithmetic operation(s) that can overflow or divide '
+              'by zero%s' % (len(raw), '' if not raw else ' (e.g. %s): a query such as SELECT x / 0, count(1) or '
+                             'SELECT p * r, count(1) panics the worker' % (raw[0][1].span.short() if raw[0][1].span else '?')),
+              where(raw[0][1]) if raw else where(ER[0].blocks[0].term))
+    # callers
+    n = 0
+    for b in P.fn_bodies():
+        if b.crate != 'locustdb' or b.name == ER[0].name or b.name.startswith(ER[0].name + '::'):
+            continue
+        if b._lines is not None and not any('encoding_range' in l for l in b._lines):
+            continue
+        b.parse()
+        sites = [(blk, t) for (blk, t) in b.calls() if not blk.cleanup and norm_callee(t.func or '').endswith('query_plan::encoding_range')]
+        if not sites:
+            continue
+        du = DefUse(b)
+        short = re.sub(r'^.*?(\w+::\w+)$', r'\1', b.name)
+        for (blk, t) in sites:
+            n += 1
+            fw = du.forward(base_local(t.dest))
+            guarded = False
+            for (b2, t2) in b.calls():
+                if b2.cleanup or not t2.args:
+                    continue
+                c2 = norm_callee(t2.func or '')
+                if c2.endswith('Option::filter') and base_local(t2.args[0]) in fw:
+                    # the predicate: a crate fn (or closure) whose body uses checked arithmetic
+                    preds = list(P.closures_in_text(t2.func or ''))
+                    m = re.search(r'\{([\w:]+)\}', t2.func or '')
+                    if m:
+                        preds += [x for x in P.find(m.group(1).split('::')[-1]) if x.kind == 'fn']
+                    for pb in preds:
+                        pb.parse()
+                        if any(re.search(r'::checked_(sub|add|neg)$', norm_callee(t3.func or '')) for (_b3, t3) in pb.calls()):
+                            guarded = True
+            ctx.check('PAN-8', '%s|range-taken-through-guard' % short, guarded,
+                      'the range returned by encoding_range is %s' %
+                      ('filtered by a predicate with checked arithmetic before the key is sized from it' if guarded else
+                       'used as it is: max - min, -min + 1 overflow for a column that spans (almost) all of i64'),
+                      where(t))
+    ctx.require(n >= 2, 'PAN-8: fewer than 2 callers of encoding_range (%d)' % n)
+    # the shift
+    TB = P.one('query_plan::try_bitpacking')
+    TB.parse()
+    cfg = CFG(TB)
+    du = DefUse(TB)
+    shl = []
+    for bid, blk in TB.blocks.items():
+        if blk.cleanup:
+            continue
+        for s in blk.stmts:
+            if s.kind == 'assign' and re.match(r'^Shl(Unchecked)?\(', s.rhs.strip()) and 'i64' in (TB.local_type(base_local(s.lhs)) or ''):
+                shl.append((bid, s))
+    ctx.require(shl, 'PAN-8: try_bitpacking does not shift the key into place (anchor)')
+    tests = []
+    for bid, blk in TB.blocks.items():
+        t = blk.term
+        if blk.cleanup or t is None or t.kind != 'switch':
+            continue
+        dl = base_local(t.discr)
+        for d in du.defs.get(dl, []):
+            if d[1] == 'stmt' and re.match(r'^(Gt|Ge|Lt|Le)\(.*const 6[34]_i64\)$|^(Gt|Ge|Lt|Le)\(const 6[34]_i64, ', d[2].rhs.strip()):
+                tests.append(bid)
+    for k, (bid, s) in enumerate(shl):
+        ok = any(cfg.dominates(tb, bid) and tb != bid for tb in tests)
+        ctx.check('PAN-8', 'try_bitpacking|width-tested-before-shift', ok,
+                  'the shift that places a column into the combined key is %s' %
+                  ('dominated by a comparison of the accumulated width with 63' if ok else
+                   'reached without a test of the accumulated width: three 32-bit-wide grouping columns shift by 64'),
+                  where(s))
